@@ -72,7 +72,7 @@ func Serve(h http.Handler, rec *Recorder, c ReqCase) {
 		if c.BodyB64 {
 			bs = unb64(c.Body)
 		}
-		body = io.NopCloser(bytes.NewReader(bs))
+		body = newNetBody(bs, "request")
 		bodyLen = int64(len(bs))
 	}
 	r := &http.Request{
